@@ -147,7 +147,8 @@ func TryPack(msg *dns.Msg, consume func([]byte) error) (handled bool, err error)
 	// touched.
 	sizeProbe := *msg
 	sizeProbe.Compress = false
-	if sizeProbe.Len() > packBufferSize {
+	need := sizeProbe.Len()
+	if need > packBufferSize {
 		return false, nil
 	}
 
@@ -167,7 +168,7 @@ func TryPack(msg *dns.Msg, consume func([]byte) error) (handled bool, err error)
 		compression = state.compression
 	}
 
-	off, ok := state.packInto(msg, opt, compression, compress)
+	off, ok := state.packInto(msg, opt, compression, compress, need)
 	if !ok {
 		return false, nil
 	}
@@ -321,8 +322,16 @@ func (state *packState) packInto(
 	opt *dns.OPT,
 	compression map[string]int,
 	compress bool,
+	need int,
 ) (int, bool) {
 	out := state.buf[:]
+	// The library packs into a zeroed buffer, and some of its routines rely
+	// on that: they advance past octets they do not write (an A record whose
+	// address is a 16-byte non-IPv4 value gets four such octets). The pooled
+	// buffer still holds the previous message, so without this those octets
+	// would be that message's bytes instead of zeros. need bounds the packed
+	// length (it is the library's own uncompressed size).
+	scrub(out[:need])
 
 	binary.BigEndian.PutUint16(out[0:2], msg.Id)
 	binary.BigEndian.PutUint16(out[2:4], msgBits(msg))
@@ -381,6 +390,11 @@ func (state *packState) packInto(
 		}
 	}
 	return off, true
+}
+
+// scrub zeroes b.
+func scrub(b []byte) {
+	clear(b)
 }
 
 // rrView is the record shim: it presents a copy of the record's header while
